@@ -86,7 +86,7 @@ func refEmphasis(s string) string {
 			if j < len(s) {
 				after = s[j]
 			}
-			bw, aw := before == ' ', after == ' '
+			bw, aw := before == ' ' || before == '\n', after == ' ' || after == '\n'
 			bp, ap := isPunctByte(before), isPunctByte(after)
 			left := !aw && (!ap || bw || bp)
 			right := !bw && (!bp || aw || ap)
@@ -248,6 +248,102 @@ func TestSelfEmphasisReference(t *testing.T) {
 		t.Fail()
 	}
 	kit.R.Note("emphasis_reference_validated_on_spec_examples", n)
+}
+
+// Multi-line variant: some single spaces of a sub-language string become line breaks (soft breaks: the reference
+// treats a line ending as whitespace, CommonMark 6.2) and the paragraph is put into a container whose continuation
+// lines carry an equivalent spelling of the container prefix: "> ", a bare ">", a lazy continuation line, the
+// content column of a list item, nested quotes. The prefix is not part of the paragraph, so the beginning of a
+// line is preceded by the line ending whatever the prefix looks like.
+var emphWraps = []struct {
+	name         string
+	first, cont  string
+	open, closeT string
+}{
+	{"none", "", "", "", ""},
+	{"quote", "> ", "> ", "<blockquote>\n", "</blockquote>\n"},
+	{"quote-bare", ">", ">", "<blockquote>\n", "</blockquote>\n"},
+	{"quote-lazy", "> ", "", "<blockquote>\n", "</blockquote>\n"},
+	{"quote-mixed", "> ", ">", "<blockquote>\n", "</blockquote>\n"},
+	{"item", "- ", "  ", "<ul>\n<li>", "</li>\n</ul>\n"},
+	{"item-wide", "1.  ", "    ", "<ol>\n<li>", "</li>\n</ol>\n"},
+	{"item-lazy", "+ ", "", "<ul>\n<li>", "</li>\n</ul>\n"},
+	{"quote-quote", "> > ", ">>", "<blockquote>\n<blockquote>\n", "</blockquote>\n</blockquote>\n"},
+	{"quote-item", "> - ", ">   ", "<blockquote>\n<ul>\n<li>", "</li>\n</ul>\n</blockquote>\n"},
+	{"indent3", "   ", "   ", "", ""},
+}
+
+func emphasisLinesOracle(c *kit.Case) error {
+	txt := string(c.Bytes["text"])
+	w := int(c.Ints["wrap"])
+	if w < 0 || w >= len(emphWraps) {
+		return nil
+	}
+	lines := strings.Split(txt, "\n")
+	for _, l := range lines {
+		if !subLanguage(l) || blockish(l) {
+			return nil
+		}
+	}
+	wr := emphWraps[w]
+	inner := refEmphasis(txt)
+	if strings.HasPrefix(wr.name, "item") || wr.name == "quote-item" { // a tight item shows its only paragraph without <p>
+		inner = strings.TrimSuffix(strings.TrimPrefix(inner, "<p>"), "</p>\n")
+	}
+	want := wr.open + inner + wr.closeT
+	var src strings.Builder
+	for i, l := range lines {
+		if i == 0 {
+			src.WriteString(wr.first)
+		} else {
+			src.WriteString(wr.cont)
+		}
+		src.WriteString(l)
+		src.WriteByte('\n')
+	}
+	var b bytes.Buffer
+	if err := (gen.Config{Unsafe: true}).MD().Convert([]byte(src.String()), &b); err != nil {
+		return kit.Violf("convert-error", "%v", err)
+	}
+	lastRuns = strings.Count(strings.NewReplacer("**", "*", "__", "_").Replace(txt), "*") + strings.Count(txt, "_")
+	if b.String() != want {
+		return kit.Violf("emphasis-lines-differ", "delimiter soup over %d lines in container spelling %s: %q\n got  %q\n want %q (reference delimiter algorithm; a line ending is whitespace)", len(lines), wr.name, src.String(), b.String(), want)
+	}
+	return nil
+}
+
+func TestEmphasisLines(t *testing.T) {
+	kit.Rapid(t, "emphasis-lines", 200000, 12000000, func(t *rapid.T) {
+		nl := rapid.IntRange(2, 4).Draw(t, "nlines")
+		var lines []string
+		for len(lines) < nl {
+			idx := rapid.SliceOfN(rapid.IntRange(0, len(emphToks)-1), 1, 7).Draw(t, "toks")
+			var sb strings.Builder
+			for _, i := range idx {
+				sb.WriteString(emphToks[i])
+			}
+			s := strings.TrimSpace(sb.String())
+			for strings.Contains(s, "  ") {
+				s = strings.ReplaceAll(s, "  ", " ")
+			}
+			if s == "" {
+				s = "a"
+			}
+			if blockish(s) {
+				s = "a" + s
+			}
+			lines = append(lines, s)
+		}
+		w := rapid.IntRange(0, len(emphWraps)-1).Draw(t, "wrap")
+		c := kit.NewCase("emphasis-lines", "unsafe").B("text", []byte(strings.Join(lines, "\n"))).I("wrap", int64(w))
+		lastRuns = 0
+		if kit.Check(t, c) {
+			kit.R.Class("emphasis-lines", "emphasis-lines:"+emphWraps[w].name)
+			if lastRuns >= 2 {
+				kit.R.NonTrivial(c)
+			}
+		}
+	})
 }
 
 var emphToks = []string{"a", "b", "foo", "bar", "1", " ", " ", "*", "*", "**", "***", "****", "_", "_", "__", "___", ".", ",", "!", "(", ")", "-", "\"", "'", "+", "$", ":", "a*", "*a", "_a", "a_", "*_", "_*", "**_", "a**b", "a_b", "(*", "*)", "_(", ")_"}
